@@ -187,10 +187,12 @@ def check_C07_argfault(H):
         if not isinstance(H.exc, ValueError):
             out.append(V('C07', 'unknown_key_not_valueerror', site, 'unknown parameter %s: got %s' % (af['name'], type(H.exc).__name__ if H.exc is not None else 'a normal return')))
         return out
-    if H.stepcap is not None or H.timeout:
-        return [V('C07', 'does_not_terminate', site, '%s: %s' % (desc, H.stepcap or 'wall clock'))]
+    if H.timeout:
+        return out
+    if H.stepcap is not None:
+        return [V('C07', 'does_not_terminate', site, '%s: %s' % (desc, H.stepcap))]
     if H.exc is not None:
-        return [V('C07', 'bad_input_raises' if exp == 'input_error' else 'boundary_value_raises', site if exp == 'normal' else H.exc_site, '%s: %s: %s' % (desc, type(H.exc).__name__, str(H.exc)[:100]))]
+        return [V('C07', 'bad_input_raises' if exp == 'input_error' else 'boundary_value_raises', H.exc_site, '%s: %s: %s' % (desc, type(H.exc).__name__, str(H.exc)[:100]))]
     s = H.soln
     if s is None:
         return [V('C07', 'no_result', site, desc)]
